@@ -153,10 +153,28 @@ template <class V, typename std::enable_if<!((V::kInlineCapacity == 0) || !std::
 static void vec_swap2(V &a, amc::SmallVector<typename V::value_type, 3, amc::allocator<typename V::value_type> > &b) {
   if (b.size() <= a.capacity()) a.swap2(b);
 }
+/// a genuinely single-pass input iterator (values produced on the fly)
+template <class T>
+struct GenIt {
+  typedef std::input_iterator_tag iterator_category;
+  typedef T value_type;
+  typedef std::ptrdiff_t difference_type;
+  typedef const T *pointer;
+  typedef T reference;
+  int cur, end;
+  GenIt(int c, int e) : cur(c), end(e) {}
+  T operator*() const { return T(cur); }
+  GenIt &operator++() { ++cur; return *this; }
+  GenIt operator++(int) { GenIt t = *this; ++cur; return t; }
+  bool operator==(const GenIt &o) const { return (cur >= end) == (o.cur >= o.end); }
+  bool operator!=(const GenIt &o) const { return !(*this == o); }
+};
 template <class V>
 static void vec_writer_op(V &mine, V &mine2, const V &shared, unsigned op, unsigned arg, size_t room) {
   typedef typename V::value_type T;
-  switch (op % 18) {
+  switch (op % 20) {
+    case 18: if (mine.size() + 4 <= room) mine.insert(mine.begin() + arg % (mine.size() + 1), GenIt<T>(0, (int)(arg % 4)), GenIt<T>(0, 0)); break;  // single-pass range, also in the middle
+    case 19: if (mine.size() + 4 <= room) mine.assign(GenIt<T>(3, 3 + (int)(arg % 4)), GenIt<T>(0, 0)); break;
     case 0: if (mine.size() < room) mine.push_back(T((int)(arg % (unsigned)(g_keyDom + 10)))); break;
     case 1: if (!mine.empty()) mine.pop_back(); break;
     case 2: if (mine.size() < room) mine.insert(mine.begin() + arg % (mine.size() + 1), T((int)(arg % (unsigned)(g_keyDom + 10)))); break;
